@@ -1,3 +1,3 @@
 """Hook commits in /repo and reasons for unclaimed properties."""
-HOOK_COMMITS = ["a034e536"]
+HOOK_COMMITS = ["a034e536", "249ad915"]
 NOT_APPLICABLE = {}
